@@ -69,10 +69,19 @@ inductive Fault
 
 /-- scripted application behaviour for the next request on a connection -/
 inductive Beh
-  /-- queue response `r`; `close` = queued in the first handler call, MHD then closes after the reply -/
-  | reply (r : Nat) (close : Bool)
-  /-- suspend in the first handler call; queue `r` after the resume (still "before the body": MHD closes after that reply) -/
-  | suspend (r : Nat)
+  /-- answer every call of the handler with an interim "102 Processing" reply (`pre`, in this order), then
+      queue the final response `r`; `close` = queued in the first handler call, MHD then closes after the reply -/
+  | reply (r : Nat) (close : Bool) (pre : List Nat)
+  /-- suspend in the first handler call; after the resume the interim replies `pre` and then `r`
+      (still "before the body": MHD closes after that reply) -/
+  | suspend (r : Nat) (pre : List Nat)
+  /-- the request is malformed: the daemon answers with a response object of its own
+      (transmit_error_response_: create, queue, destroy the creator's reference; the connection's reference
+      goes with the connection) and closes; no application response is touched -/
+  | bad
+  /-- a response was queued from outside the handler while the connection was suspended (`Op.extQueue`):
+      the handler is not called again (call_connection_handler returns at once), the reply runs -/
+  | sent
   deriving Repr, DecidableEq
 
 structure Conn where
@@ -333,6 +342,21 @@ def finishReply (R : RespTab) (c : Conn) : RespTab × Conn × Disp × List Ev :=
   let q := closeConn R c
   (q.1, { q.2.1 with closeAfter := false }, if c.closeAfter then .clean else .keep, q.2.2)
 
+/-- the reply with the queued response `r` (`c.resp = some r`) runs: from START_REPLY to the end or until the socket is full -/
+def runReply (R1 : RespTab) (c1 : Conn) (r : Nat) (cl : Bool) : RespTab × Conn × Disp × List Ev :=
+  if c1.clientClosed then
+    -- the reply cannot be delivered: connection closed with error, response given back
+    let q := closeConn R1 c1
+    (q.1, q.2.1, .clean, q.2.2)
+  else if isUpg R1 r then
+    -- 101 sent, MHD_response_execute_upgrade_: suspended with urh, response given back
+    let q := closeConn R1 c1
+    (q.1, { q.2.1 with urh := true }, .susp, [.upgraded c1.id] ++ q.2.2)
+  else if isBig R1 r && c1.nodrain then
+    (R1, { c1 with held := true, closeAfter := cl }, .keep, [])
+  else
+    finishReply R1 { c1 with closeAfter := cl }
+
 /-- queue response `r` on connection `c` (the application's handler does it) and run the reply -/
 def doReply (cfg : Cfg) (R : RespTab) (c : Conn) (r : Nat) (cl : Bool) : RespTab × Conn × Disp × List Ev :=
   -- MHD_queue_response: "the response was already set" / upgrade without MHD_ALLOW_UPGRADE → MHD_NO
@@ -341,29 +365,54 @@ def doReply (cfg : Cfg) (R : RespTab) (c : Conn) (r : Nat) (cl : Bool) : RespTab
   match acquire R r with
   | none => (R, { c with req := none }, .clean, [.queued c.id r false])   -- handler returns MHD_NO
   | some R1 =>
-    let c1 : Conn := { c with req := none, resp := some r }
-    if c.clientClosed then
-      -- the reply cannot be delivered: connection closed with error, response given back
-      let q := closeConn R1 c1
-      (q.1, q.2.1, .clean, [.queued c.id r true] ++ q.2.2)
-    else if isUpg R r then
-      -- 101 sent, MHD_response_execute_upgrade_: suspended with urh, response given back
-      let q := closeConn R1 c1
-      (q.1, { q.2.1 with urh := true }, .susp, [.queued c.id r true, .upgraded c.id] ++ q.2.2)
-    else if isBig R r && c.nodrain then
-      (R1, { c1 with held := true, closeAfter := cl }, .keep, [.queued c.id r true])
-    else
-      let q := finishReply R1 { c1 with closeAfter := cl }
-      (q.1, q.2.1, q.2.2.1, [.queued c.id r true] ++ q.2.2.2)
+    let q := runReply R1 { c with req := none, resp := some r } r cl
+    (q.1, q.2.1, q.2.2.1, [.queued c.id r true] ++ q.2.2.2)
+
+/-- one interim reply: MHD_queue_response with MHD_HTTP_PROCESSING (reference +1), the header goes out,
+    MHD_connection_handle_idle FULL_REPLY_SENT "102" branch: MHD_destroy_response (reference −1) and back to
+    HEADERS_PROCESSED (the handler is called again).  An 'upgrade' response is refused with any status but 101.
+    If the client has gone the send fails and MHD_connection_close_ gives the reference back instead.
+    Result flag: the connection lives on and the handler is called again. -/
+def interimOne (R : RespTab) (c : Conn) (r : Nat) : RespTab × Bool × List Ev :=
+  if isUpg R r then (R, false, [.queued c.id r false]) else
+  match acquire R r with
+  | none => (R, false, [.queued c.id r false])       -- handler returns MHD_NO
+  | some R1 =>
+    let q := release R1 r
+    (q.1, !c.clientClosed, [.queued c.id r true] ++ q.2)
+
+/-- the interim replies of one request, in order, until one fails -/
+def interims (R : RespTab) (c : Conn) : List Nat → RespTab × Bool × List Ev
+  | [] => (R, true, [])
+  | r :: rest =>
+    match interimOne R c r with
+    | (R1, false, e) => (R1, false, e)
+    | (R1, true, e) =>
+      let q := interims R1 c rest
+      (q.1, q.2.1, e ++ q.2.2)
+
+/-- interim replies, then the final one.  Every response queued after an interim reply is queued in state
+    HEADERS_PROCESSED ("early"): MHD closes the connection after the final reply. -/
+def replyPre (cfg : Cfg) (R : RespTab) (c : Conn) (r : Nat) (cl : Bool) (pre : List Nat) : RespTab × Conn × Disp × List Ev :=
+  match interims R c pre with
+  | (R1, false, e) => (R1, { c with req := none }, .clean, e)
+  | (R1, true, e) =>
+    let q := doReply cfg R1 c r (cl || !pre.isEmpty)
+    (q.1, q.2.1, q.2.2.1, e ++ q.2.2.2)
 
 /-- the pending request (if any) reaches the application -/
 def handleReq (cfg : Cfg) (R : RespTab) (c : Conn) : RespTab × Conn × Disp × List Ev :=
   match c.req with
   | none => (R, c, .keep, [])
-  | some (.suspend r) =>
-    if cfg.allowSuspend then (R, { c with req := some (.reply r true) }, .susp, [.suspended c.id])
+  | some (.suspend r pre) =>
+    if cfg.allowSuspend then (R, { c with req := some (.reply r true pre) }, .susp, [.suspended c.id])
     else ({ R with fault := some .suspendNotAllowed }, c, .keep, [.panic .suspendNotAllowed])
-  | some (.reply r cl) => doReply cfg R c r cl
+  | some (.reply r cl pre) => replyPre cfg R c r cl pre
+  | some .bad => (R, { c with req := none }, .clean, [])
+  | some .sent =>
+    match c.resp with
+    | some r => runReply R { c with req := none } r true
+    | none => (R, { c with req := none }, .keep, [])
 
 /-- what happens to a connection that stays in `connections` after its request was handled -/
 def afterReq (R : RespTab) (c : Conn) : RespTab × Conn × Disp × List Ev :=
@@ -503,6 +552,11 @@ inductive Op
   | stop
   | respCreate (r : Nat) (big hasCb upg : Bool)
   | respDrop (r : Nat)
+  /-- MHD_queue_response from outside the handler on a suspended connection -/
+  | extQueue (c r : Nat)
+  /-- accept() / accept4() on the listen socket fails (EMFILE, ENFILE, ECONNABORTED, EAGAIN …):
+      MHD_accept_connection returns before internal_add_connection, nothing is counted -/
+  | acceptFail
   deriving Repr, DecidableEq
 
 def updConn (id : Nat) (f : Conn → Conn) (l : List Conn) : List Conn :=
@@ -515,7 +569,25 @@ def setClientClosed (c : Conn) : Conn := { c with clientClosed := true }
 def setNodrain (v : Bool) (c : Conn) : Conn := { c with nodrain := v }
 def setResuming (c : Conn) : Conn := { c with resuming := true }
 
+def setQueued (r : Nat) (c : Conn) : Conn := { c with resp := some r, req := some .sent }
+
+/-- may a response be queued on this suspended connection from outside? (not upgraded, nothing queued yet) -/
+def extQueueable (id : Nat) (x : Conn) : Bool := x.id == id && !x.urh && x.resp.isNone
+
+/-- the (first) suspended connection `id` gets response `r` queued -/
+def queueFirst (id r : Nat) : List Conn → List Conn
+  | [] => []
+  | x :: l => if extQueueable id x then setQueued r x :: l else x :: queueFirst id r l
+
 def idle (c : Conn) : Bool := c.req.isNone && c.resp.isNone && !c.clientClosed && !c.urh
+
+/-- MHD_queue_response on a suspended connection, called from outside the handler (status 200: an
+    'upgrade' response is refused) -/
+def extQueue (s : St) (c r : Nat) : St × List Ev :=
+  if isUpg { tab := s.resps } r then (s, [.queued c r false]) else
+  match acquire { tab := s.resps, fault := none } r with
+  | none => (s, [.queued c r false])
+  | some R1 => ({ s with resps := R1.tab, susp := queueFirst c r s.susp }, [.queued c r true])
 
 /-- is the operation one the API / the script vocabulary permits in this state? -/
 def Op.legal (s : St) : Op → Bool
@@ -524,7 +596,7 @@ def Op.legal (s : St) : Op → Bool
   | .disarm => true
   | .req c b =>
     !s.shutdown && (hasConn c idle s.newL || hasConn c idle s.active) &&
-    (match b with | .suspend _ => s.cfg.allowSuspend | .reply _ _ => true)
+    (match b with | .suspend _ _ => s.cfg.allowSuspend | _ => true)
   | .clientClose c => !hasConn c (fun x => !x.urh) s.susp   -- script restriction: not while plainly suspended
   | .hold _ => true
   | .drain _ => true
@@ -535,6 +607,8 @@ def Op.legal (s : St) : Op → Bool
   | .stop => !s.shutdown
   | .respCreate r _ _ _ => (s.resps r).isNone
   | .respDrop r => match s.resps r with | some x => x.app && !x.freed | none => false
+  | .extQueue c _ => !s.shutdown && s.susp.any (extQueueable c)
+  | .acceptFail => !s.shutdown
 
 def mapAll (s : St) (f : List Conn → List Conn) : St :=
   { s with newL := f s.newL, active := f s.active, susp := f s.susp, cleanup := f s.cleanup }
@@ -555,6 +629,8 @@ def step (s : St) (o : Op) : St × List Ev :=
   | .round => round s
   | .query => if s.cfg.threadSafe then (s, []) else cleanupAll s
   | .stop => stop s
+  | .extQueue c r => extQueue s c r
+  | .acceptFail => (s, [])
   | .respCreate r big hasCb upg =>
     ({ s with resps := setFn s.resps r (some { rc := 1, app := true, freed := false, big := big, hasCb := hasCb, upg := upg }) }, [])
   | .respDrop r =>
